@@ -35,7 +35,7 @@ ROOT = os.path.dirname(os.path.dirname(os.path.dirname(os.path.abspath(__file__)
 PY = sys.executable
 
 
-COLLIDING = ["Client", "Server", "PACKET", "Net", "Map", "Pub", "Data", "Encrypt", "Protocol", "Sys"]
+COLLIDING = ["Client", "Server", "PACKET", "Net", "Map", "Pub", "Data", "Encrypt", "Protocol", "Sys", "Pyramid", "PyThing", "XmlDoc", "Init", "Generated", "Eolib"]
 PATHS = ["", "net", "net/client", "net/server", "map", "pub", "pub/server"]
 FORBIDDEN = {"": {"net", "map", "pub"}, "net": {"client", "server"}, "pub": {"server"}}
 N_COLLISION = {"quick": 4, "thorough": 14}
